@@ -24,6 +24,7 @@ import (
 	"time"
 
 	baseerrors "github.com/grailbio/base/errors"
+	"github.com/grailbio/base/retry"
 	"github.com/grailbio/bigmachine/testsystem"
 	"github.com/grailbio/bigslice"
 	"github.com/grailbio/bigslice/exec"
@@ -616,8 +617,10 @@ func (r *runner) doStep(ctx context.Context, st *step, lane int) {
 			r.emit(vtr.Rec{"do": "discard", "res": st.Res, "lane": lane, "skipped": true})
 			return
 		}
-		res.Discard(ctx)
+		// logged before the call: anything that overlaps the Discard may already see the outputs gone
 		r.emit(vtr.Rec{"do": "discard", "res": st.Res, "lane": lane})
+		res.Discard(ctx)
+		r.emit(vtr.Rec{"do": "discard-done", "res": st.Res, "lane": lane})
 	case "par":
 		r.emit(vtr.Rec{"do": "parbegin", "lane": lane, "n": len(st.Steps)})
 		var wg sync.WaitGroup
@@ -710,6 +713,11 @@ func runScenario(sc *scenario) (rec vtr.Rec) {
 	r.mu.Unlock()
 	rec["hung"] = hung
 	return
+}
+
+func init() {
+	// same shape as the production policy (exponential back-off, 5 retries), scaled down
+	exec.VerifSetRetryPolicy(retry.MaxRetries(retry.Backoff(20*time.Millisecond, 200*time.Millisecond, 2), 5))
 }
 
 // TestVerifProg runs the scenarios of $VERIF_CASES; writes $VERIF_OUT/prog_records.ndjson.
